@@ -11,4 +11,10 @@ MEASURED = {}
 
 
 def get(facts, key, default=0):
-    return FLOORS.get(facts.config, {}).get(key, default)
+    """Required instance count = the count on the reviewed tree minus a small slack (one instance, or 10%): a floor guards
+    against a rule that silently lost its anchors (counts collapse to zero or a fraction), not against a refactor that
+    merges two call sites; what a rule demands of each instance is checked instance by instance."""
+    n = FLOORS.get(facts.config, {}).get(key, default)
+    if n <= 1:
+        return n
+    return max(1, n - max(1, n // 10))
